@@ -64,10 +64,16 @@ def check_scat_forward(cfg, sizes, rnd):
     x = rs.randn(2, C, H, W)
     if cfg.get('zero_image'):
         x[:] = 0
+    if cfg.get('sparse'):                 # a small blob on an exactly-black background
+        m = np.zeros_like(x)
+        m[..., H // 4:H // 4 + 3, W // 4:W // 4 + 3] = 1
+        x = x * m
     if order == 1:
         if biort.endswith('_bp'):
             return True, 'band-pass family: no reference pyramid in dtcwt for the rotationally symmetric filters (bounded tier skips)'
         layer = _build64(ScatLayer, biort=biort, magbias=b, combine_colour=colour)
+        if cfg.get('eval_mode'):
+            layer = torch.nn.Sequential(layer).eval()
         try:
             z = layer(torch.tensor(x))
         except Exception as e:
@@ -82,6 +88,8 @@ def check_scat_forward(cfg, sizes, rnd):
         return True, 'ScatLayer %s colour=%s %dx%d ok' % (biort, colour, H, W)
     qshift = cfg.get('qshift', 'qshift_a')
     layer = _build64(ScatLayerj2, biort=biort, qshift=qshift, magbias=b, combine_colour=colour)
+    if cfg.get('eval_mode'):
+        layer = torch.nn.Sequential(layer).eval()
     try:
         z = layer(torch.tensor(x))
     except Exception as e:
